@@ -19,7 +19,10 @@ PROP = {'rule': 'rapid-generated cases. budget: (capacity 1-256 cores incl. frac
          'after a round (root keeps the set, some pod/container dirs are cut to strict non-empty subsets, agent restarted with an '
          'empty executor cache, same inputs repeated). In suppressHistory the reserved-CPU / system-QoS annotations of the node topology '
          'may change between two rounds (annotation-only update: same UID and generation), with a cpuset-mode round favoured right '
-         'after the change. distinct = FNV-64 of the full case.',
+         'after the change. largeSplit: nodes of 4-256 processors, reserved / LSE blocks, an LSR pool of any size 1..eligible-1 '
+         'in 1-3 LSR pods, old BE cpuset = everything or the eligible CPUs (no step limit), budget at eligible x 1000 +- small deltas, one '
+         'adjustByCPUSet round; non-trivial = target equals the number of eligible CPUs on >= 32 processors. '
+         'distinct = FNV-64 of the full case.',
  'assumptions': ['pkg/koordlet/util/perf_group/perf_group_linux.go is replaced (build overlay only) by a cgo-free stand-in with the '
                  'same exported surface, because libpfm4 headers are not installed; no oracle touches perf counters',
                  'processor lists are what koordletutil.getProcessorInfos yields: non-empty, unique CPU ids, sorted by (node, socket, core, '
@@ -44,7 +47,8 @@ PROP = {'rule': 'rapid-generated cases. budget: (capacity 1-256 cores incl. frac
                       {'run': 'TestVerifC10SetPolicy', 'quick': 3000, 'thorough': 20000},
                       {'run': 'TestVerifC10AdjustCPUSet', 'quick': 2500, 'thorough': 8000},
                       {'run': 'TestVerifC10CfsQuota', 'quick': 2000, 'thorough': 8000},
-                      {'run': 'TestVerifC10SuppressHistory', 'quick': 1000, 'thorough': 6000}]}],
+                      {'run': 'TestVerifC10SuppressHistory', 'quick': 1000, 'thorough': 6000},
+                      {'run': 'TestVerifC10LargeSplit', 'quick': 1500, 'thorough': 8000}]}],
  'manifest': {'technique': 'property-based testing (rapid): generated node topologies / pod sets / annotations / usage metrics with an '
                            'independent restatement of the budget formula (big.Rat), a metamorphic monotonicity relation, and set-validity '
                            '+ count oracles on the cpuset / cfs quota actually written under a temporary cgroup root',
